@@ -14,6 +14,7 @@ matrices / points / factors are computed by TLC only.
 """
 import itertools
 import math
+import os
 import sys
 
 import numpy as np
@@ -27,6 +28,7 @@ CFG = "INIT Init\nNEXT Next\nINVARIANT Report\nINVARIANT RefSane\nCHECK_DEADLOCK
 TOL = 1e-9
 MAXABS = 64.0     # every exact value in the enumerated scope is far smaller; keeps TLC's 32-bit products safe
 HALF_PI = math.pi / 2.0
+ROUND = 48000      # records per TLC validation round
 
 AXES24 = ["sxyz", "sxyx", "sxzy", "sxzx", "syzx", "syzy", "syxz", "syxy", "szxy", "szxz", "szyx", "szyz",
           "rzyx", "rxyx", "ryzx", "rxzx", "rxzy", "ryzy", "rzxy", "ryxy", "ryxz", "rzxz", "rxyz", "rzyz"]
@@ -654,7 +656,16 @@ def main(argv):
     for fn, k in need.items():
         if byfn.get(fn, 0) < k:
             raise MachineryError(f"enumeration too small for {fn}: {byfn.get(fn, 0)} < {k}")
-    rejects, states, wall = tlc.validate_batches("c19", "TransformAlg", cases, CFG)
+    # bounded rounds and a bounded heap: 16 JVMs holding a few thousand parsed records each
+    os.environ.setdefault("JAVA_TOOL_OPTIONS", "-Xmx3g")
+    rejects, states, wall = {}, 0, 0.0
+    for lo in range(0, len(cases), ROUND):
+        rj, st, wl = tlc.validate_batches("c19", "TransformAlg", cases[lo:lo + ROUND], CFG)
+        rejects.update(rj)
+        states += st
+        wall += wl
+    if states != len(cases):
+        raise MachineryError(f"TLC judged {states} of {len(cases)} records")
     badin = [cid for cid, cl in rejects.items() if cl.startswith("BADINPUT") or cl == "unknown_function"]
     if badin:
         raise MachineryError(f"harness built an input the spec does not accept: {cases[badin[0]]}")
